@@ -15,6 +15,7 @@ This is proof by exact evaluation per configuration: exhaustive over the enumera
 from fractions import Fraction
 import itertools
 import importlib
+from fractions import Fraction as Fr
 import numpy as np
 
 from vc.ghost import series as S
@@ -58,14 +59,18 @@ def run_sdc(sweeper, sparams, kind, kmax):
         yield k, L.uend, p, L
 
 
-def order_ok(R, upto, two_var=False):
+def order_ok(R, upto, two_var=False, scale=1):
+    """Taylor coefficients of R against exp(scale*(zI+zE)) up to total degree `upto` (scale = step size relative to the unit step)"""
+    from fractions import Fraction
+
+    c = Fraction(scale)
     for n in range(0, upto + 1):
         for i in range(n + 1):
             j = n - i
             if not two_var and j:
                 continue
-            if abs(R.coeff(i, j) - S.exp_coeff(i, j)) > TOL:
-                return False, dict(degree=(i, j), coeff=float(R.coeff(i, j)), exp=float(S.exp_coeff(i, j)))
+            if abs(R.coeff(i, j) - S.exp_coeff(i, j) * c ** (i + j)) > TOL * max(1, c ** (i + j)):
+                return False, dict(degree=(i, j), coeff=float(R.coeff(i, j)), exp=float(S.exp_coeff(i, j) * c ** (i + j)))
     return True, None
 
 
@@ -217,6 +222,21 @@ def check_rk(tier, seed):
         obs.append(_ob(f'rk[{name}]:matches_exp_through_order_{p}', good, info))
         higher, _ = order_ok(L.uend, p + 1, two_var=imex)
         obs.append(dict(_ob(f'rk[{name}]:order_is_exactly_{p}_(informational)', True), counted=False, note=f'order {p + 1} also holds' if higher else 'sharp'))
+        # history: the SAME level and sweeper object take further steps with other step sizes (nothing scaled with an earlier step size may survive)
+        for c in (Fr(1, 2), Fr(2)):
+            try:
+                L.params.dt = float(c)
+                L.status.time = L.status.time + 1.0
+                L.u[0] = S.mesh(None, 1)
+                L.status.sweep = 1
+                L.sweep.predict()
+                L.sweep.update_nodes()
+                L.sweep.compute_end_point()
+            except Exception as e:
+                obs.append(_ob(f'rk[{name}]:further_step_with_dt={float(c)}:runs', False, dict(error=repr(e)[:200])))
+                break
+            good2, info2 = order_ok(L.uend, p, two_var=imex, scale=c)
+            obs.append(_ob(f'rk[{name}]:further_step_on_the_same_sweeper_with_dt={float(c)}_matches_exp_through_order_{p}', good2, info2))
         if cls.is_embedded():
             uo = cls.get_update_order()
             diff = L.uend - L.sweep.u_secondary
